@@ -515,6 +515,66 @@ def updMeasureC : List (Path × PV) → Nat
   | [] => 0
   | (p, v) :: r => 1 + p.length + pvW v + updMeasureC r
 
+/-! ### auto_batch_size_ (tensordict/utils.py:_set_max_batch_size) -/
+
+/-- `batch_dims is None or len(batch_size) < batch_dims` -/
+def hasRoom (bd : Option Nat) (acc : Shape) : Bool :=
+  match bd with
+  | none => true
+  | some n => acc.length < n
+
+/-- the `while True` loop of `_set_max_batch_size`: `first` is what is left of `tensor_shapes[0]` from `curr_dim` on,
+`others` what is left of the other shapes (paired with "is an empty tensor collection", which the loop skips);
+`acc` is `batch_size`. A dim is appended only while `batch_dims is None or len(batch_size) < batch_dims`, but the
+loop keeps running over the first shape either way. -/
+def autoPrefix (bd : Option Nat) : Shape → Shape → List (Shape × Bool) → Shape
+  | acc, [], _ => acc
+  | acc, d :: rest, others =>
+    if others.all (fun sb => sb.2 || sb.1.head? == some d) then
+      autoPrefix bd (if hasRoom bd acc then acc ++ [d] else acc) rest (others.map fun sb => (sb.1.tail, sb.2))
+    else acc
+
+/-- the part of `_set_max_batch_size(source, batch_dims)` that follows the recursion into the nested tensordicts:
+an empty `source` is cut to `batch_dims` dims when `batch_dims` is truthy (the slice is a `torch.Size`, so an equal
+size returns at once), otherwise the common leading dims are assigned through the `batch_size` setter (as a list). -/
+def autoFinish (bd : Option Nat) : M → M × Out
+  | .leaf s d => (.leaf s d, .err .attr)
+  | .node bs dv names [] =>
+    match bd with
+    | none => (.node bs dv names [], .ok)
+    | some n =>
+      if n = 0 ∨ bs.take n = bs then (.node bs dv names [], .ok)
+      else setBatchM (bs.take n) (.node bs dv names [])
+  | .node bs dv names ((k, first) :: others) =>
+    setBatchM (autoPrefix bd [] first.shape (others.map fun kv => (kv.2.shape, kv.2.isEmpty)))
+      (.node bs dv names ((k, first) :: others))
+
+/-- the recursion of `_set_max_batch_size` into the nested tensordicts, in `values()` order: each one is processed
+completely (its own nested tensordicts first, then its own batch size); the first failure propagates and leaves the
+later entries — and every enclosing batch size — as they were. -/
+def autoKids (bd : Option Nat) : Kids → Kids × Out
+  | [] => ([], .ok)
+  | (k, .leaf s d) :: r =>
+    let (r', o) := autoKids bd r
+    ((k, .leaf s d) :: r', o)
+  | (k, .node cbs cdv cnames sub) :: r =>
+    match autoKids bd sub with
+    | (sub', .err e) => ((k, .node cbs cdv cnames sub') :: r, .err e)
+    | (sub', .ok) =>
+      match autoFinish bd (.node cbs cdv cnames sub') with
+      | (c', .err e) => ((k, c') :: r, .err e)
+      | (c', .ok) =>
+        let (r', o) := autoKids bd r
+        ((k, c') :: r', o)
+
+/-- `td.auto_batch_size_(batch_dims)` -/
+def autoBatchM (bd : Option Nat) : M → M × Out
+  | .leaf s d => (.leaf s d, .err .attr)
+  | .node bs dv names kids =>
+    match autoKids bd kids with
+    | (kids', .err e) => (.node bs dv names kids', .err e)
+    | (kids', .ok) => autoFinish bd (.node bs dv names kids')
+
 /-- apply `f` to the node addressed by `handle` (a nested handle `td[handle]`), rebuilding the path -/
 def atPath (f : M → M × Out) : Path → M → M × Out
   | [], t => f t
@@ -539,6 +599,7 @@ inductive Op where
   | setdefault (handle key : Path) (v : M)
   | refineNames (handle : Path) (names : DimNames)
   | update (handle : Path) (items : List (Path × PV))
+  | autoBatch (handle : Path) (batchDims : Option Nat)
   deriving Repr, Inhabited
 
 def clearM : M → M × Out
@@ -558,6 +619,7 @@ def step (t : M) : Op → M × Out
   | .setdefault h key v => atPath (setDefaultPath key v) h t
   | .refineNames h ns => atPath (refineNamesM ns) h t
   | .update h items => atPath (updateC (updMeasureC items) items) h t
+  | .autoBatch h bd => atPath (autoBatchM bd) h t
 
 def run (t : M) : List Op → M
   | [] => t
